@@ -6,8 +6,11 @@ def Good : List Ret → Prop
   | [] => True
   | e :: h => e.t0 + e.ms * 1000000 ≤ e.at_ ∧ Good h
 
+/-- `Thread::sleep(ms)` asks `usleep` for at least `ms` milliseconds: the factor read from the CURRENT Thread.cpp is ≥ 1000 -/
+theorem sleep_unit_covers_ms : 1000 ≤ usPerMs := by decide
+
 structure Inv (s : St) : Prop where
-  wakeOk : ∀ t p, s.pc t = some p → p.wake = p.t0 + p.ms * 1000000
+  wakeOk : ∀ t p, s.pc t = some p → p.t0 + p.ms * 1000000 ≤ p.wake
   good : Good s.log
 
 theorem inv_step {s s' : St} {t : Tid} {a : Act Nat} (h : Inv s) (hs : step s t a = some s') : Inv s' := by
@@ -21,7 +24,9 @@ theorem inv_step {s s' : St} {t : Tid} {a : Act Nat} (h : Inv s) (hs : step s t 
     refine ⟨?_, h2⟩
     intro u p hp
     by_cases hut : u = t
-    · subst hut; simp [upd] at hp; subst hp; simp; omega
+    · subst hut; simp [upd] at hp; subst hp; simp
+      have hk := Nat.mul_le_mul_right 1000 (Nat.mul_le_mul_left ms sleep_unit_covers_ms)
+      exact Nat.le_trans (Nat.le_of_eq (by omega : ms * 1000000 = ms * 1000 * 1000)) hk
     · exact h1 u p (by simpa [upd, hut] using hp)
   | run alt =>
     simp only [step] at hs
